@@ -115,7 +115,8 @@ def run(ctx):
     import gen_units
     gen_units.g_unit(ctx, "translate_driver")
     gen_units.g_unit(ctx, "translate_finish")
-    k_unit(ctx)
+    import common as _common
+    _common.guarded(ctx, "K-unit", k_unit, ctx)
     u = ctx.unit("D:search(best)", "D",
                  "1-3 search() calls, rotating optimizers, plateaus/ties, negative/zero/non-finite scores, constraints, every "
                  "verbosity setting; each spec is run under two verbosity settings with the same seed; model driver compares "
